@@ -1,12 +1,12 @@
-\* quick, lookup slice: every pair of lookup kinds x triples x feature layouts A/C x every character request
+\* thorough, lookup slice
 CONSTANTS
   K1 = {"single", "multiple", "alternate", "ligature", "chain", "ctx2"}
   K2 = {"single", "multiple", "alternate", "ligature", "chain", "ctx2"}
   T1Sel = "all"
-  T2Sel = "some"
-  CompSel = {5}
-  FeatModes = {"A", "C"}
-  GposSel = {"none"}
+  T2Sel = "all"
+  CompSel = {1, 5}
+  FeatModes = {"A", "B", "C", "D"}
+  GposSel = {"pair"}
   ReqGlyphSel = {0}
   RetainSel = {FALSE}
   NotdefSel = {TRUE}
